@@ -517,6 +517,7 @@ int main(int argc, char **argv) {
   go.tallMix = argi("tallMix", 0);
   go.twoTypes = argi("twoTypes", 0);
   go.clump = argi("clump", 0);
+  go.connectAll = argi("connectAll", 0);
   go.zeroAreaMovable = argi("zeroAreaMovable", 0);
   go.utilLo = atof(args("utilLo", "0.05").c_str());
   go.utilHi = atof(args("utilHi", "1.3").c_str());
@@ -536,31 +537,35 @@ int main(int argc, char **argv) {
       int vs = (int)argi("varyScale", 0);
       g.scaleShift = (int)r.pick(std::vector<int>{0, 0, 3, vs / 2, vs});
     }
-    Circuit base = vg::genCircuit(r, g);
-    if (argi("hugeArea", 0)) {
-      // magnify so that the total movable area lands between 2^31 and 2^32 (where a 32-bit sum turns negative) while every single
-      // cell stays far below 2^31
-      long long total = 0;
-      for (int i = 0; i < base.nbCells(); ++i)
-        if (!base.isFixed(i)) total += base.area(i);
-      if (total > 0) {
-        int f = (int)std::llround(std::sqrt(1.4 * 2147483648.0 / (double)total));
-        if (f >= 2 && f < 20000) vg::magnifyCircuit(base, f);
+    auto draw = [&]() {
+      Circuit c = vg::genCircuit(r, g);
+      if (argi("hugeArea", 0)) {
+        // magnify so that the total movable area lands between 2^31 and 2^32 (where a 32-bit sum turns negative) while every single
+        // cell stays far below 2^31; hugeArea=k: k times that (with infeasible density: an excess of several times 2^31)
+        long long total = 0;
+        for (int i = 0; i < c.nbCells(); ++i)
+          if (!c.isFixed(i)) total += c.area(i);
+        if (total > 0) {
+          int f = (int)std::llround(std::sqrt(1.4 * (double)argi("hugeArea", 1) * 2147483648.0 / (double)total));
+          if (f >= 2 && f < 40000) vg::magnifyCircuit(c, f);
+        }
       }
-    }
-    if (argi("translate", 0)) {
-      // far from the origin: 2^24 is where single-precision floats stop representing every integer
-      static const std::vector<int> shifts = {0, (1 << 24) + 1, (1 << 25) + 3, -(1 << 25) - 5, 1 << 27};
-      vg::Rng tr(s ^ 0x9e3779b97f4a7c15ULL);
-      vg::translateCircuit(base, tr.pick(shifts), tr.pick(shifts));
-    }
+      if (argi("translate", 0)) {
+        // far from the origin: 2^24 is where single-precision floats stop representing every integer
+        static const std::vector<int> shifts = {0, (1 << 24) + 1, (1 << 25) + 3, -(1 << 25) - 5, 1 << 27};
+        vg::Rng tr(s ^ 0x9e3779b97f4a7c15ULL);
+        vg::translateCircuit(c, tr.pick(shifts), tr.pick(shifts));
+      }
+      return c;
+    };
+    Circuit base = draw();
     uint64_t pseed = r.u() >> 1;
     vg::Rng pr(pseed);
     ColoquinteParameters p = vg::genParams(pr, po);
     if (g.globalDomain) {
       // stay inside the C06 domain: redraw until a free segment survives the side margin
       for (int tries = 0; tries < 50 && !vg::inGlobalDomain(base, p.global.roughLegalization.sideMargin); ++tries) {
-        base = vg::genCircuit(r, g);
+        base = draw();
       }
       if (!vg::inGlobalDomain(base, p.global.roughLegalization.sideMargin)) continue;
     }
